@@ -381,6 +381,9 @@ func (c *callCase) run() string {
 		path = "path:script"
 	}
 	classes := []string{"entry:" + r.id(), "mode:" + c.mode, path, "want:" + want.kind}
+	if f := knownFinding(r, c.args, want); f != "" {
+		classes = append(classes, "pattern-of-repaired:"+f) // the input pattern of a former finding is exercised
+	}
 	key := r.id() + describeArgs(c.args) + path
 	switch want.kind {
 	case oUnsafe:
